@@ -51,7 +51,7 @@ RULE = ('cases 0..2600: the SINGLE-DAMAGE MATRIX - every alien expression (ill-t
         'non-trivial = the CLI ran and at least one I/O fault position was enumerated or the input was not a '
         'plain valid program.')
 ASSUMPTIONS = ['the fake file system reproduces io.TextIOWrapper/BufferedWriter semantics by wrapping fake raw streams in the real io classes',
-               'source files are decoded as UTF-8 (Python 3.12 in this image: UTF-8 mode / C.UTF-8)',
+               'source files are UTF-8 whatever the locale of the compiling process (README: strings are UTF-8 byte strings; F21)',
                'inputs keep textual nesting depth <= 40; deeper nesting (Python recursion limit) is outside the property; flat chains are inside it (F15)']
 
 TOKEN_RE = re.compile(r'''"(?:\\.|[^"\\])*"|'(?:\\.|[^'\\])*'|//[^\n]*|[@!]?[A-Za-z_]\w*|\d\w*|==|!=|<=|>=|\?\?|[-+*/%]=|\S''')
@@ -529,7 +529,7 @@ def looks_like_traceback(text):
 
 
 def cli_oracle(data, opts, expected_asm, accepted, plan=None, inp_missing=False, inp_dir=False, out_dir=False,
-               stdout_fault=None):
+               stdout_fault=None, locale_encoding='utf-8'):
     """Run the CLI on the fake fs; -> (violations, CliResult)"""
     out = []
     files = {} if inp_missing else {'in.hid': data}
@@ -540,7 +540,7 @@ def cli_oracle(data, opts, expected_asm, accepted, plan=None, inp_missing=False,
     outname = 'out.s' if opts.get('o') else 'in.hid.s'
     if out_dir:
         dirs.add(outname)
-    fs = FakeFS(files, dirs, plan or FaultPlan())
+    fs = FakeFS(files, dirs, plan or FaultPlan(), locale_encoding=locale_encoding)
     r = run_cli(cli_args(opts), fs, stdout_fault=stdout_fault)
     fired = fs.plan.fired
     if stdout_fault and getattr(r.stdout_obj, 'fired', False) and fired is None:
@@ -699,6 +699,22 @@ def _judge(kind, payload, opts, idx, enumerate_faults=True, cross_check=False):
                 if getattr(r.stdout_obj, 'fired', False):
                     stats['faults']['stdout:' + sf] = stats['faults'].get('stdout:' + sf, 0) + 1
                 viol += [(c, d, {'stdout_fault': sf}) for c, d in v]
+        if not viol and text is not None and any(b >= 0x80 for b in data):
+            # the process environment: a locale whose encoding is not UTF-8 must change nothing (same status,
+            # same file) - the fake file system decodes an open() that names no encoding with it, as CPython does
+            base = r0.fs.files.get('out.s' if opts.get('o') else 'in.hid.s') if r0.fs.created else None
+            for loc in ('ascii', 'latin-1', 'cp1252'):
+                v, r = cli_oracle(data, opts, asm, accepted, FaultPlan(), locale_encoding=loc)
+                stats['fault_points'] += 1
+                stats['faults']['locale:' + loc] = stats['faults'].get('locale:' + loc, 0) + 1
+                viol += [(c, d + f' (locale encoding {loc})', {'locale': loc}) for c, d in v]
+                got = r.fs.files.get('out.s' if opts.get('o') else 'in.hid.s') if r.fs.created else None
+                if not v and ((r.status == 0) != (r0.status == 0) or got != base):
+                    viol.append(('cli-locale-dependent', f'under a {loc} locale the tool exits {r.status} '
+                                 f'({"no" if got is None else len(got)} bytes of output), under UTF-8 {r0.status} '
+                                 f'({"no" if base is None else len(base)} bytes): {r.stderr.strip()[-160:]!r}', {'locale': loc}))
+                if viol:
+                    break
         if not viol:
             for variant in ('inp_missing', 'inp_dir', 'out_dir'):
                 v, r = cli_oracle(data, opts, asm, accepted, FaultPlan(), **{variant: True})
